@@ -113,6 +113,9 @@ TEMPLATES = [
       lambda n: 'x = lambda' + (' ' if n else '') + ', '.join(_names(n)) + ': 0', lambda j: f'n{j}'),
     T('MatchMapping._all', 'MatchMapping', '_all', 'mmapelt',
       lambda n: 'match m:\n    case {' + ', '.join(f'{i}: e{i}' for i in range(n)) + '}: pass', lambda j: f'10{j}: n{j}'),
+    T('MatchMapping._all.rest', 'MatchMapping', '_all', 'mmapelt',
+      lambda n: 'match m:\n    case {' + ', '.join([f'{i}: e{i}' for i in range(n - 1)] + (['**er'] if n else [])) + '}: pass',
+      lambda j: '**nr' if j == 1 else f'10{j}: n{j}'),
     T('MatchClass._attrs', 'MatchClass', '_attrs', 'attrelt',
       lambda n: 'match m:\n    case C(' + ', '.join([f'e{i}' if i < 2 else f'k{i}=e{i}' for i in range(n)]) + '): pass',
       lambda j: f'nk{j}=n{j}'),
